@@ -72,6 +72,10 @@ type tracker struct {
 	pauseAll bool
 	pauseSet map[int]bool
 	only     int // >= 0: park at exactly this index
+	// cold-start family: no storage call of the working phase is a pause point (a reader there would warm the
+	// caches before the writer's own first reads); in the end phase: structural points + every sampleEvery-th call
+	cold        bool
+	sampleEvery int
 	parked   chan *pauseInfo
 	resume   chan struct{}
 	freeCh   chan struct{}
@@ -168,9 +172,17 @@ func (t *tracker) before(ev *sopx.Event) sopx.Action {
 	t.infos = append(t.infos, info)
 	// replay of one pause index: that call, plus every call inside the flip (the order in which the handles
 	// of one commit are flipped follows Go map iteration, so a partial-flip state moves between the indices)
+	if t.cold {
+		pause := !t.dry && t.inEnd && (info.Must || t.pauseAll || (t.sampleEvery > 0 && info.Idx%t.sampleEvery == 0))
+		t.mu.Unlock()
+		return t.finishBefore(ev, info, act, flip, pause)
+	}
 	pause := !t.dry && (t.only < 0 && (t.pauseAll || info.Must || t.pauseSet[info.Idx]) || t.only == info.Idx || (t.only >= 0 && t.inFlip && ev.Iface == "l2x"))
 	t.mu.Unlock()
+	return t.finishBefore(ev, info, act, flip, pause)
+}
 
+func (t *tracker) finishBefore(ev *sopx.Event, info evInfo, act sopx.Action, flip, pause bool) sopx.Action {
 	if pause && !t.isFree() {
 		t.park(&pauseInfo{evInfo: info, ev: ev})
 	}
@@ -191,6 +203,20 @@ func (t *tracker) before(ev *sopx.Event) sopx.Action {
 	}
 	t.mu.Unlock()
 	return act
+}
+
+// opPauseBase: pause "index" of the gate after API op i of the working phase is -(opPauseBase+i).
+const opPauseBase = 10
+
+// parkOp parks the writer between two API operations of its working phase (stage 0).
+func (t *tracker) parkOp(i int, o Op, ok bool) {
+	if t.dry || t.isFree() {
+		return
+	}
+	t.mu.Lock()
+	info := evInfo{Idx: -(opPauseBase + i), Key: "api." + o.K, Desc: fmt.Sprintf("after op %d: %s(%d)=%v", i, o.K, o.Key, ok), Stage: t.stageLocked()}
+	t.mu.Unlock()
+	t.park(&pauseInfo{evInfo: info})
 }
 
 func (t *tracker) park(p *pauseInfo) {
@@ -485,10 +511,49 @@ func obsFromDump(d *sopx.Dump, name string, universe []int) *Obs {
 
 // exec sets the store up and runs the writer once. onPause (nil in a dry run) is called in the
 // calling goroutine for every pause point while the writer is parked.
-func (h *harness) exec(sh *Shape, m *model, tr *tracker, onPause func(p *pauseInfo, e *sopx.Env, name string)) (out *execOut, err error) {
+// execOpt: the cold-start family runs the writer in a process that did NOT create the store.
+type execOpt struct {
+	Folder, Name string // "" = a new folder and store name of this process
+	SkipSetup    bool   // the store was created and committed by another process
+	GateOps      string // "" | "each" (park after every API op of the working phase) | "last" (after the last one)
+}
+
+// setupStore creates the store and commits the pre-population with an undecorated transaction.
+func setupStore(e *sopx.Env, sh *Shape, name string) error {
+	ctx := context.Background()
+	t, err := e.NewTxn(ctx, sop.ForWriting, time.Minute, "setup", true)
+	if err != nil {
+		return fmt.Errorf("setup: %w", err)
+	}
+	if err = t.Begin(ctx); err != nil {
+		return fmt.Errorf("setup begin: %w", err)
+	}
+	opts := sh.Opts
+	opts.Name = name
+	b, err := t.NewStore(ctx, opts)
+	if err != nil {
+		t.Rollback(ctx)
+		return fmt.Errorf("setup newstore: %w", err)
+	}
+	for _, kv := range sh.Pre {
+		if ok, err := b.Add(ctx, kv[0], strconv.Itoa(kv[1])); err != nil || !ok {
+			t.Rollback(ctx)
+			return fmt.Errorf("setup add %d: ok=%v err=%v", kv[0], ok, err)
+		}
+	}
+	if err := t.Commit(ctx); err != nil {
+		return fmt.Errorf("setup commit: %w", err)
+	}
+	return nil
+}
+
+func (h *harness) exec(sh *Shape, m *model, tr *tracker, onPause func(p *pauseInfo, e *sopx.Env, name string), xo execOpt) (out *execOut, err error) {
 	h.nstore++
 	name := fmt.Sprintf("%s%d_%d", storePrefix, os.Getpid(), h.nstore)
 	folder := filepath.Join(h.root, fmt.Sprintf("db%d", h.nstore))
+	if xo.Folder != "" {
+		folder, name = xo.Folder, xo.Name
+	}
 	out = &execOut{name: name}
 	ctx := context.Background()
 	e, err := h.newEnv(folder, sh.HashMod)
@@ -498,33 +563,13 @@ func (h *harness) exec(sh *Shape, m *model, tr *tracker, onPause func(p *pauseIn
 	out.env = e
 	// setup transaction: not decorated, first user of the process-global L1 cache
 	tSetup := time.Now()
-	{
-		t, err := e.NewTxn(ctx, sop.ForWriting, time.Minute, "setup", true)
-		if err != nil {
-			return out, fmt.Errorf("setup: %w", err)
-		}
-		if err = t.Begin(ctx); err != nil {
-			return out, fmt.Errorf("setup begin: %w", err)
-		}
-		opts := sh.Opts
-		opts.Name = name
-		b, err := t.NewStore(ctx, opts)
-		if err != nil {
-			t.Rollback(ctx)
-			return out, fmt.Errorf("setup newstore: %w", err)
-		}
-		for _, kv := range sh.Pre {
-			if ok, err := b.Add(ctx, kv[0], strconv.Itoa(kv[1])); err != nil || !ok {
-				t.Rollback(ctx)
-				return out, fmt.Errorf("setup add %d: ok=%v err=%v", kv[0], ok, err)
-			}
-		}
-		if err := t.Commit(ctx); err != nil {
-			return out, fmt.Errorf("setup commit: %w", err)
+	if !xo.SkipSetup {
+		if err := setupStore(e, sh, name); err != nil {
+			return out, err
 		}
 	}
 	h.timed("setup", tSetup)
-	if !tr.dry {
+	if !tr.dry && !xo.SkipSetup {
 		out.preObs = h.read(e, name, m.universe)
 	}
 	tRun := time.Now()
@@ -559,12 +604,15 @@ func (h *harness) exec(sh *Shape, m *model, tr *tracker, onPause func(p *pauseIn
 			t.Rollback(ctx)
 			return
 		}
-		for _, o := range sh.Prog {
+		for i, o := range sh.Prog {
 			ok, err := doOp(ctx, b, o)
 			out.opRes = append(out.opRes, ok)
 			if err != nil {
 				out.opErr = fmt.Sprintf("%s %d: %v", o.K, o.Key, err)
 				break
+			}
+			if xo.GateOps == "each" || (xo.GateOps == "last" && i == len(sh.Prog)-1) {
+				tr.parkOp(i, o, ok)
 			}
 		}
 		tr.mu.Lock()
